@@ -13,7 +13,7 @@ import (
 )
 
 func init() {
-	props["C10"] = &propDef{run: runC10, explanation: "Partial (thin): the list algebra itself (insert-or-replace keeping order, set union/difference, RFC 6902 semantics, id uniqueness) is value-level and NOT decided. Decided statically: (T1) the action tables agree — keys of patch.actionConfig = case constants of patchvalidator.Validate = case constants of the composer's dispatch = the eight patch.Action constants, each composer case calls its own handler and anything else is an error; (E1) handler write-sets — the key/service/also-known-as handlers write exactly their own member of the working document, replace builds a fresh document with exactly the two members taken from the replace document's publicKeys/services, ietf-json-patch returns the library output re-parsed; (P1) ApplyPatches is a left fold: deep copy of the document parameter, then one loop over the patches parameter in index order threading the result, the final result returned; (X2) sibling decision skeletons — for every append/update site in a handler's loop, which collection is iterated (document vs patch value), which collection the membership set is built from, the polarity of the membership test and what is appended; the three remove-handlers, the two keyed add-handlers and add-also-known-as must each match the documented skeleton (this catches an inverted keep condition, a dropped replace branch, a wrong source collection)."}
+	props["C10"] = &propDef{run: runC10, explanation: "Partial (thin): the list algebra itself (insert-or-replace keeping order, set union/difference, RFC 6902 semantics, id uniqueness) is value-level and NOT decided. Decided statically: (T1) the action tables agree — keys of patch.actionConfig = case constants of patchvalidator.Validate = case constants of the composer's dispatch = the eight patch.Action constants, each composer case calls its own handler and anything else is an error; (E1) handler write-sets — the key/service/also-known-as handlers write exactly their own member of the working document, replace builds a fresh document with exactly the two members taken from the replace document's publicKeys/services, ietf-json-patch returns the library output re-parsed; (P1) ApplyPatches is a left fold: deep copy of the document parameter, then one loop over the patches parameter in index order threading the result, the final result returned; (X2) sibling decision skeletons — for every append/update site in a handler's loop, which collection is iterated (document vs patch value), which collection the membership set is built from, the polarity of the membership test and what is appended; the three remove-handlers, the two keyed add-handlers and add-also-known-as must each match the documented skeleton (this catches an inverted keep condition, a dropped replace branch, a wrong source collection). Every handler loop visits every element: the only way out of a top-level loop body is an error return (a break drops the remaining entries)."}
 	props["C14"] = &propDef{run: runC14, explanation: "Partial (thin): document→patches→document and bytes round trips are value-level and NOT decided. Decided statically: (X1) each of the eight patch constructors stores ActionKey = its action and exactly one value under actionConfig[action]; (G1) FromBytes succeeds only across GetAction and GetValue of the decoded patch; GetValue looks up actionConfig[own action] and requires that member; GetAction admits only string-typed actions present in actionConfig; (T1) PatchesFromDocument maps publicKey / service / alsoKnownAs to their constructors and every other member to one combined ietf-json-patch 'add /<name>', visits members in sorted order, and succeeds only for documents without an id; (P1) Bytes() serialises the receiver itself; (J1) in the functions reachable from PatchesFromDocument no list separator is written under a loop-index test while the elements are written conditionally (hand-assembled JSON)."}
 }
 
@@ -820,6 +820,16 @@ func (c *Ctx) composerSkeletons(rule string, handlers map[string]*ssa.Function) 
 		}
 		c.Check(rule, "siblings-agree:"+strings.Join(grp, ","), ok, 0, "sibling handlers share one decision skeleton")
 	}
+	// every handler loop visits every element: the only way out of a loop, other than its own loop condition, is an
+	// error return — a `break` (or a success return) inside the body drops the remaining entries of the patch / document
+	for _, a := range as {
+		h := handlers[a]
+		if h == nil {
+			continue
+		}
+		bad := c.earlyLoopExits(h)
+		c.Check(rule, a+":loops-visit-every-element", len(bad) == 0, h.Pos(), fmt.Sprintf("%s: no loop is left before its last element except by an error return", h.Name()), bad...)
+	}
 	// the keyed add-handlers replace by id: through a helper (checked by replacesByID at the call) or in place
 	for _, a := range []string{"add-public-keys", "add-services"} {
 		h := handlers[a]
@@ -1007,4 +1017,49 @@ func (c *Ctx) patchLiteral(v ssa.Value, env Env, depth int) (map[string]string, 
 		return out, cnt, out != nil
 	}
 	return nil, 0, false
+}
+
+// earlyLoopExits lists the edges that leave a loop of f from inside its body (not from the loop header's own
+// condition) towards code from which a may-succeed return is reachable: break statements and success returns.
+func (c *Ctx) earlyLoopExits(f *ssa.Function) []string {
+	var out []string
+	canSucceed := func(start *ssa.BasicBlock) bool {
+		seen := reach(start, nil)
+		seen[start] = nil
+		for b := range seen {
+			if r, ok := b.Instrs[len(b.Instrs)-1].(*ssa.Return); ok && maySucceed(r) {
+				return true
+			}
+		}
+		return false
+	}
+	loops := naturalLoops(f)
+	for _, l := range loops {
+		// only the handler's own element loops: a search loop nested inside one (an inlined replace-by-id that stops
+		// at the first match) may break
+		nested := false
+		for _, o := range loops {
+			if o != l && len(o.blocks) > len(l.blocks) && o.blocks[l.header] {
+				nested = true
+			}
+		}
+		if nested {
+			continue
+		}
+		for b := range l.blocks {
+			if b == l.header {
+				continue
+			}
+			for _, s := range b.Succs {
+				if l.blocks[s] {
+					continue
+				}
+				if canSucceed(s) {
+					out = append(out, fmt.Sprintf("the loop at %s is left from its body at %s towards a successful exit", c.pos(firstPos(l.header)), c.pos(firstPos(s))))
+				}
+			}
+		}
+	}
+	sort.Strings(out)
+	return out
 }
